@@ -430,6 +430,7 @@ def finish(res, tier, seed, t0, level='proof'):
     cov['broken'] = broken
     cov['known_findings_reproduced'] = sorted(seen_known)
     cov['notes'] = res.notes
+    cov = sanitize_coverage(cov)
     ev = dict(property_id=prop, tier=tier, seed=seed, level=level, coverage=cov,
               assumptions=res.assumptions, wall_s=round(time.time() - t0, 2),
               violations=len(violations) + (1 if (broken and not violations) else 0))
@@ -442,6 +443,32 @@ def finish(res, tier, seed, t0, level='proof'):
              cov.get('evaluations'), len(res.mismatches), len(res.spec_fails), len(res.spec_fails) - len(violations),
              time.time() - t0))
     return exit_code
+
+
+_INT_KEYS = ('evaluations', 'distinct_nontrivial', 'states', 'transitions', 'traces_validated_against_impl',
+             'obligations', 'discharged', 'programs', 'disagreements_checked')
+
+
+def sanitize_coverage(cov):
+    """Keep the keys the evidence schema types in the type it demands; anything a harness put
+    there in another shape moves to a *_note key instead of making the file invalid."""
+    out = dict(cov)
+    for k in _INT_KEYS:
+        if k in out and not (isinstance(out[k], int) and not isinstance(out[k], bool)):
+            out[k + '_note'] = out.pop(k)
+    if 'exhaustive' in out and not isinstance(out['exhaustive'], bool):
+        out['exhaustive_scope'] = out['exhaustive']
+        out['exhaustive'] = True
+    for k in ('rule', 'explanation', 'checker_cmd'):
+        if k in out and not isinstance(out[k], str):
+            out[k] = json.dumps(out[k], default=str)
+    if 'samples' in out and not isinstance(out['samples'], list):
+        out['samples'] = [out['samples']]
+    if 'trusted_base' in out:
+        out['trusted_base'] = [x if isinstance(x, str) else json.dumps(x, default=str) for x in out['trusted_base']]
+    if not out.get('samples'):
+        out['samples'] = ['(no case was generated in this run)']
+    return out
 
 
 def rng(seed, prop):
